@@ -13,7 +13,7 @@ import (
 )
 
 const (
-	maxID uint64 = (1 << 26) - 1
+	maxID uint64 = (1 << 25) - 1
 )
 
 // The key dispatcher is responsible for handing out keys for a single
